@@ -2,8 +2,8 @@
    the six TOML settings clock_drift, reference_clock_impact, peer_clock_impact, peer_clock_cutoff,
    sync_timeout, sync_interval (float64, seconds or plain factors; an omitted key is 0.0) become the
    configured drift of the SystemClock and the sync.Config handed to sync.Run.  No proofs here. *)
-From ST Require Import Base.Ints Base.F64 Model.Sync.
-From Coq Require Import ZArith Bool.
+From ST Require Import Base.Ints Base.F64 Base.Value Base.Sorting Model.Sync.
+From Coq Require Import ZArith Bool List.
 Open Scope Z_scope.
 
 Definition default_ref : f64 := f_of_bits 4608308318706860032.    (* 1.25 *)
@@ -41,3 +41,21 @@ Definition C01_config_ok (drift ref peer cutoff timeout interval : option f64)
     match cutoff with None => ocutoff =? default_cutoff | Some _ => true end &&
     match timeout with None => otimeout =? default_timeout | Some _ => true end &&
     match interval with None => ointerval =? default_interval | Some _ => true end)).
+
+(* ---- the service's wiring (timeservice.go runServer / runClient / createClocks) ---- *)
+
+(* source-level tie (harness/cmd/c01/wiring.go): the observation is the list of rules that do not hold *)
+Definition C01_wiring_ok {A : Type} (violated : list A) : bool := match violated with nil => true | _ => false end.
+
+(* createClocks: the configured reference clocks (MBG, PHC, SHM, NTP servers) are the reference clocks,
+   the configured SCION peers are the peers, nothing else and nothing twice; the order within a list is free *)
+Definition C01_clocks_ok (cref cpeer : list Z) (ok : bool) (oref opeer : list Z) : bool :=
+  ok && list_eqb Z.eqb (zsort oref) (zsort cref) && list_eqb Z.eqb (zsort opeer) (zsort cpeer).
+
+(* SystemClock.Sleep(d): the bound of C01 is per round, and a round lasts one SyncInterval because Run sleeps
+   for it: Sleep(d) must not return before d has passed (1/1000 + 50 us are allowed for the difference between the
+   monotonic clock that measures and CLOCK_REALTIME that Sleep waits on), must return (within a generous 10 s),
+   and a negative duration is refused (panic) *)
+Definition C01_sleep_ok (d : Z) (panicked : bool) (elapsed : Z) : bool :=
+  if d <? 0 then panicked
+  else negb panicked && (d - d / 1000 - 50000 <=? elapsed) && (elapsed <? d + 10000000000).
